@@ -35,6 +35,7 @@ type funk struct {
 	varResumables     map[t.ID]bool
 	derivedVars       map[t.ID]struct{}
 	jumpTargets       map[a.Loop]string
+	labeledLoops      map[t.ID]a.Loop
 	activeLoops       a.LoopStack
 	coroSuspPoint     uint32
 	ioManips          uint32
@@ -51,7 +52,18 @@ type funk struct {
 
 func (k *funk) jumpTarget(tm *t.Map, n a.Loop) (string, error) {
 	if label := n.Label(); label != 0 {
-		return label.Str(tm), nil
+		// Two (non-nested) loops of one function may share a label but their
+		// C labels must differ. The first such loop is named after the label.
+		// Later ones are numbered, like unlabeled loops are.
+		if k.labeledLoops == nil {
+			k.labeledLoops = map[t.ID]a.Loop{}
+		}
+		if first, ok := k.labeledLoops[label]; !ok {
+			k.labeledLoops[label] = n
+			return label.Str(tm), nil
+		} else if first == n {
+			return label.Str(tm), nil
+		}
 	}
 	if k.jumpTargets == nil {
 		k.jumpTargets = map[a.Loop]string{}
